@@ -8,6 +8,7 @@ CONSTANTS
   Orders = {1, 3}
 SPECIFICATION Spec
 INVARIANT PoseRecovered
+INVARIANT FitShowsTemplate
 INVARIANT FeaturesDescribePose
 INVARIANT V0416WrongIffShiftMoved
 INVARIANT Emit
